@@ -226,6 +226,7 @@ pub fn get(prop: &str, tier: &str) -> Option<Check> {
             batches: vec![
                 Batch { name: "ffi_client", f: scen::ffi::run_client, cfg: cfg(Mode::LockStep, false, 0), runs: n(40_000, 1_500_000), real: REAL_FFI, stub: STUB_FFI },
                 Batch { name: "ffi_server_tcp", f: scen::ffi::run_server, cfg: cfg(Mode::LockStep, false, 0), runs: n(40_000, 1_500_000), real: REAL_FFI, stub: STUB_FFI },
+                Batch { name: "ffi_client_tls", f: scen::ffi::run_client_tls, cfg: cfg(Mode::Racy, false, 0), runs: n(1_500, 60_000), real: REAL_FFI, stub: STUB_FFI },
                 Batch { name: "ffi_client_rtu", f: scen::ffi::run_client_rtu, cfg: cfg(Mode::LockStep, false, 0), runs: n(30_000, 1_000_000), real: REAL_FFI, stub: STUB_FFI },
             ],
             assumptions: vec!["only valid enumerator values cross the boundary (the generated From<c_int> impls panic on others by oo-bindgen's design)", "Java/.NET/C++ layers above the C ABI are out of scope"],
